@@ -31,7 +31,7 @@ MODELS = {
                  ('MC_Hier', 'MC_Hier_t1.cfg', 3000),
                  ('Ddmin', 'MC_Ddmin_seq.cfg', 900, PARA)],
 }
-NCONF = {'quick': 18, 'thorough': 250}
+NCONF = {'quick': 15, 'thorough': 250}
 SEEDS = ['0', '1', 'random']
 CLAUSES = {
     'sequential-run-adopted-a-later-task-before-an-untested-earlier-one',
@@ -60,7 +60,7 @@ def theory_configs(r, tier):
     out = []
     texts = [('enum', ENUM)] + seeds.all_seeds()
     if tier == 'quick':
-        texts = texts[:1] + r.sample(texts[1:], 7)
+        texts = texts[:1] + r.sample(texts[1:], 4)
     for k, (name, text) in enumerate(texts):
         atoms = corpus.atoms_of(text)
         keep = [t for t in ('p', 'check-sat') if t in atoms][:1] or atoms[:1]
